@@ -22,6 +22,7 @@ for name in sorted(rows):
     out.append("| %s | %s | %s | %s |" % (name, r["desc"], {True: "yes", False: "no", None: "?"}[r["suite"]], v))
 out += ["", "Notes on `missed` entries:",
         "* s10 (C05), s24 (C05), s06/s07-style leaks (C05): the mutant does not block Wait; the property named in the row was a guess, the property it really breaks is detected (C07 resp. C06).",
+        "* g19: equivalent mutant (the cycle check still fires once the path is longer than 64 entries, i.e. on every real cycle).",
         "* s23: equivalent mutant (a consumer with duplicate dependencies reaches 0 exactly once), s25: deliberately equivalent mutant; both must stay silent, and do.",
         "* g08 (C11): a predicate panic that is not recovered kills the process; this is attributed to C04 (detected there), not to C11.",
         "* rows listed twice were re-run after the check was strengthened; the table shows the latest run.", "",
